@@ -21,7 +21,7 @@
 #error "compile with -DPROP=17 or 18"
 #endif
 
-enum { K_SCEN = VC_USER, K_POINTS, K_MAXPOINTS, K_SHARED_ADDRS, K_SHARED_WRITTEN, K_SELFTEST_EXEC, K_WATCH_CALLS, K_TREES, K_TREES_WITH_TAG, K_OPS, K_BOUND0, K_BOUND1, K_BOUND2, K_BOUND3, K_REDUCED, K_UNREDUCED, K_CAPPED, K_SWEEP, K_REFUSED_OPS, K_TREES_WITH_HISTORY };
+enum { K_SCEN = VC_USER, K_POINTS, K_MAXPOINTS, K_SHARED_ADDRS, K_SHARED_WRITTEN, K_SELFTEST_EXEC, K_WATCH_CALLS, K_TREES, K_TREES_WITH_TAG, K_OPS, K_BOUND0, K_BOUND1, K_BOUND2, K_BOUND3, K_REDUCED, K_UNREDUCED, K_CAPPED, K_SWEEP, K_REFUSED_OPS, K_TREES_WITH_HISTORY, K_HANDOVER, K_REFUSED_RUNS, K_DEEP_TREES };
 
 static uint64_t fnv(uint64_t h, const void* p, size_t n) {
   const unsigned char* b = p;
@@ -416,6 +416,39 @@ static void frozen_ops_pass(cbor_item_t* t, const char* origin) {
 #endif
     if (fnv(7, vs_shared_base(), vs_shared_used()) != img) vf_fail(NULL, "%s left the inspected tree modified [%s]", OPNAME[op], origin);
   }
+  /* the same operations with every allocator request they make refused: cbor_serialize_alloc then fails, and so does anything else that
+   * (against C13) asks for memory - a failing read-only operation must still not store into the tree */
+  for (int op = 0; op < OP_N; op++) {
+    uint64_t before = vs_requests_while_frozen();
+    if (op != OP_SERIALIZE_ALLOC) {
+      /* probe: does it request memory at all? (only then is there a failure path to look at) */
+      vs_freeze_shared(false);
+      (void)run_op(op, t);
+      vs_unfreeze();
+      if (vs_requests_while_frozen() == before) continue;
+    }
+    vf_cnt(K_OPS, 1);
+    vf_cnt(K_REFUSED_RUNS, 1);
+    vs_refuse_while_frozen(true);
+#ifdef VF_MPROTECT
+    vs_freeze_shared(true);
+    (void)run_op(op, t);
+    vs_unfreeze();
+#else
+    vs_freeze_shared(false);
+    vs_watch_begin();
+    (void)run_op(op, t);
+    struct vs_exec e = vs_watch_end();
+    vs_unfreeze();
+    if (e.frozen_stores) {
+      char a[160];
+      vf_fail(NULL, "%s with its allocator requests refused stores into the item it inspects (%u stores, first at offset %#tx of the frozen arena, from %s) [%s]", OPNAME[op], e.frozen_stores,
+              (char*)e.frozen_addr - (const char*)vs_shared_base(), symname(e.frozen_pc, a, sizeof a), origin);
+    }
+#endif
+    vs_refuse_while_frozen(false);
+    if (fnv(7, vs_shared_base(), vs_shared_used()) != img) vf_fail(NULL, "%s with its allocator requests refused left the inspected tree modified [%s]", OPNAME[op], origin);
+  }
 }
 /* (b) concurrent readers */
 static const uint8_t* cur_tree_bytes;
@@ -512,6 +545,103 @@ static void scen_unit(unsigned s) {
   add_stats(&st, false);
   vf_sample("scenario %s: unreduced exploration to bound %u%s: %" PRIu64 " schedules, %" PRIu64 " scheduling points per schedule at most, %" PRIu64 " distinct shared addresses, %" PRIu64 " of them written", scen_name,
             st.bound_completed, st.capped ? " (capped)" : "", st.executions, st.max_points, st.distinct_shared_addrs, st.shared_written_addrs);
+}
+/* hand-over: items that exist before the threads start - an original, its cbor_copy, a copy of the copy, a re-load of its serialization - are each
+ * given to ONE thread, which inspects, copies and releases it. No item is shared between threads as far as the client can tell, so no schedule
+ * may contain a race: anything two of these "independent" items share behind the client's back shows up as a conflicting access */
+static const uint8_t HO_IN[] = {0x83, 0x5f, 0x42, 1, 2, 0x40, 0xff, 0xa2, 0x61, 'a', 0xc1, 0xc2, 0x00, 0x20, 0x7f, 0x60, 0x61, 'b', 0xff, 0xf9, 0x3e, 0x00};
+static const uint8_t HO_IN2[] = {0x9f, 0x82, 0x01, 0x80, 0xbf, 0x40, 0x60, 0xff, 0xd8, 0x18, 0x5f, 0xff, 0x7f, 0xff, 0xfb, 0x7f, 0xf8, 0, 0, 0, 0, 0, 1, 0xf6, 0xff};
+static cbor_item_t* ho_item[VS_MAXT];
+static int ho_variant, ho_which;
+static void ho_setup(void) {
+  struct cbor_load_result r;
+  const uint8_t* in = ho_which ? HO_IN2 : HO_IN;
+  size_t n = ho_which ? sizeof HO_IN2 : sizeof HO_IN;
+  cbor_item_t* orig = cbor_load(in, n, &r);
+  memset(ho_item, 0, sizeof ho_item);
+  if (!orig) return;
+  switch (ho_variant) {
+    case 0: ho_item[0] = orig; ho_item[1] = cbor_copy(orig); ho_item[2] = ho_item[1] ? cbor_copy(ho_item[1]) : NULL; break; /* original | copy | copy of the copy */
+    case 1: { /* original | re-load of its serialization | copy of that */
+      unsigned char* b = NULL;
+      size_t bs = 0, w = cbor_serialize_alloc(orig, &b, &bs);
+      ho_item[0] = orig;
+      ho_item[1] = w ? cbor_load(b, w, &r) : NULL;
+      ho_item[2] = ho_item[1] ? cbor_copy(ho_item[1]) : NULL;
+      break;
+    }
+    default: { /* the copies survive the original: it is released before the threads start */
+      ho_item[0] = cbor_copy(orig);
+      ho_item[1] = cbor_copy(orig);
+      ho_item[2] = ho_item[0] ? cbor_copy(ho_item[0]) : NULL;
+      cbor_decref(&orig);
+    }
+  }
+}
+static void ho_body(int t) {
+  cbor_item_t* it = ho_item[t];
+  uint64_t h = 43;
+  if (!it) { res[t] = 0; return; }
+  h = describe_digest(it, h);
+  size_t sz = cbor_serialized_size(it);
+  unsigned char out[96];
+  size_t w = cbor_serialize(it, out, sizeof out);
+  h = fnv(fnv(h, &sz, sizeof sz), out, w);
+  cbor_item_t* c = cbor_copy(it);
+  if (c) {
+    w = cbor_serialize(c, out, sizeof out);
+    h = fnv(h, out, w);
+    cbor_decref(&c);
+  }
+  cbor_decref(&it);
+  res[t] = h;
+}
+static uint64_t ho_solo;
+static bool ho_check(const struct vs_exec* e) {
+  char a[160], b[160];
+  if (e->races) {
+    vf_fail(NULL, "%s: data race on %s: thread %d (%s) and thread %d (%s) access it without ordering although every thread works on an item of its own", scen_name, addrname(e->race_addr, a, sizeof a), e->race_t1,
+            e->race_w1 ? "store" : "load", e->race_t2, e->race_w2 ? "store" : "load");
+    return false;
+  }
+  if (e->global_writes) {
+    vf_fail(NULL, "%s: library code (%s) stores to %s: hidden mutable global state", scen_name, symname(e->global_pc, a, sizeof a), addrname(e->global_addr, b, sizeof b));
+    return false;
+  }
+  for (int t = 0; t < cur_n; t++)
+    if (res[t] != ho_solo) {
+      vf_fail(NULL, "%s: thread %d obtained different results than when running alone (schedule with %u preemptions)", scen_name, t, e->preemptions);
+      return false;
+    }
+  return true;
+}
+static bool ho_check_solo(const struct vs_exec* e) { (void)e; return true; }
+#define NHANDOVER 12 /* 2 inputs x 3 variants x {2, 3} threads */
+static void handover_unit(unsigned s) {
+  ho_which = (int)(s % 2);
+  ho_variant = (int)(s / 2 % 3);
+  cur_n = s / 6 ? 3 : 2;
+  static const char* VN[] = {"original | copy | copy of the copy", "original | re-load of its serialization | copy of that", "two copies and a copy of a copy, original released"};
+  snprintf(scen_name, sizeof scen_name, "hand-over (%s; input %d; %d threads)", VN[ho_variant], ho_which, cur_n);
+  uint8_t d[4] = {0xfe, (uint8_t)s, 0, 0};
+  vf_case("handover", d, 4);
+  vf_cnt(K_SCEN, 1);
+  vf_cnt(K_HANDOVER, 1);
+  vf_cnt(VC_DISTINCT, 1);
+  vs_body b[3] = {ho_body, ho_body, ho_body};
+  struct vs_stats st;
+  int keep = cur_n;
+  cur_n = 1;
+  vs_explore(1, b, 0, 0, 10, ho_setup, ho_check_solo, &st);
+  ho_solo = res[0];
+  cur_n = keep;
+  vs_explore(cur_n, b, 2, VS_REDUCED, 2000000, ho_setup, ho_check, &st);
+  add_stats(&st, true);
+  vf_state(vf_mix(1000 + s, st.executions));
+  vs_explore(cur_n, b, vf_tier ? (cur_n == 2 ? 2 : 1) : (cur_n == 2 ? 1 : 0), 0, 4000000, ho_setup, ho_check, &st); /* every access to an item is a scheduling point here: the items live in shared memory */
+  add_stats(&st, false);
+  vf_sample("scenario %s: unreduced exploration to bound %u%s: %" PRIu64 " schedules, %" PRIu64 " distinct shared addresses, %" PRIu64 " of them written", scen_name, st.bound_completed, st.capped ? " (capped)" : "",
+            st.executions, st.distinct_shared_addrs, st.shared_written_addrs);
 }
 /* 'keeps no state between calls' / 'allocates nothing' at store level: the streaming decoder, encoders, size and
  * fixed-buffer serialization perform no store outside the caller's stack and the output buffer */
@@ -668,6 +798,21 @@ static void a_seq_cb(const vf_seq* s, void* ctx) {
   vf_hex(hx, sizeof hx, buf, s->n);
   frozen_ops(t, hx);
 }
+/* boundary-corpus items that fit the arena: deep nesting (30 .. 2048 levels), wide containers, long strings */
+static void a_corpus_unit(uint64_t i) {
+  size_t n;
+  const char* name;
+  const uint8_t* b = vf_corpus_item(i, &n, &name);
+  if (n > 20000) return;
+  vf_case("tree-corpus", b, n);
+  vs_reset_arenas();
+  struct cbor_load_result r;
+  cbor_item_t* t = cbor_load(b, n, &r);
+  if (!t) return;
+  vf_cnt(VC_DISTINCT, 1);
+  vf_cnt(K_DEEP_TREES, 1);
+  frozen_ops(t, name);
+}
 static void a_con_unit(uint64_t u) {
   vt_choices ch;
   memset(&ch, 0, sizeof ch);
@@ -746,6 +891,8 @@ static void unit(uint64_t u) {
   if (u == 1) { watch_unit(); return; }
   if (u < 2 + nscen) { scen_unit((unsigned)(u - 2)); return; }
   u -= 2 + nscen;
+  if (u < NHANDOVER) { handover_unit((unsigned)u); return; }
+  u -= NHANDOVER;
   if (u < sweep_dfs_units) { vf_dfs_unit(&VF_SIGMA, vf_tier ? 5 : 4, u, CBOR_MAX_STACK_SIZE, 64 * 1024, sweep_seq_cb, NULL); return; }
   u -= sweep_dfs_units;
   if (u < vf_corpus_count()) { size_t n; const uint8_t* b = vf_corpus_item(u, &n, NULL); if (n < 20000) sweep_input(b, n); return; }
@@ -761,6 +908,8 @@ static void unit(uint64_t u) {
   u -= dfs_units;
   if (u < con_units) { a_con_unit(u); return; }
   u -= con_units;
+  if (u < vf_corpus_count()) { a_corpus_unit(u); return; }
+  u -= vf_corpus_count();
 #ifndef VF_MPROTECT
   vf_dfs_unit(&VF_SIGMA1, vf_tier ? 4 : 3, u, CBOR_MAX_STACK_SIZE, 64 * 1024, b_seq_cb, NULL);
 #endif
@@ -768,12 +917,12 @@ static void unit(uint64_t u) {
 }
 static uint64_t units(void) {
 #if PROP == 17
-  return 2 + nscen + sweep_dfs_units + vf_corpus_count() + sweep_con_units + 1;
+  return 2 + nscen + NHANDOVER + sweep_dfs_units + vf_corpus_count() + sweep_con_units + 1;
 #else
 #ifdef VF_MPROTECT
-  return dfs_units + con_units;
+  return dfs_units + con_units + vf_corpus_count();
 #else
-  return 1 + dfs_units + con_units + e5_units;
+  return 1 + dfs_units + con_units + vf_corpus_count() + e5_units;
 #endif
 #endif
 }
@@ -792,6 +941,7 @@ static void init(void) {
   sweep_null = fopen("/dev/null", "w");
   sweep_dfs_units = vf_dfs_units(&VF_SIGMA);
 #else
+  vf_corpus_init();
   dfs_k = vf_tier ? 4 : 3;
   dfs_units = vf_dfs_units(&VF_SIGMA);
   e5_units = vf_dfs_units(&VF_SIGMA1);
@@ -806,6 +956,7 @@ static void replay(const char* tag, const uint8_t* d, size_t len) {
   if (!strcmp(tag, "selftest")) { selftest_unit(); return; }
 #if PROP == 17
   if (!strcmp(tag, "watch")) { watch_unit(); return; }
+  if (!strcmp(tag, "handover") && len >= 2) { handover_unit(d[1] % NHANDOVER); return; }
   if (!strcmp(tag, "sweep")) { sweep_input(d, len); return; }
   if (!strcmp(tag, "sweep-misc")) { sweep_misc(); return; }
   if (!strcmp(tag, "sweep-ctree")) { fprintf(stderr, "constructed-tree sweep cases are enumerated by unit: re-run the check\n"); return; }
@@ -819,6 +970,11 @@ static void replay(const char* tag, const uint8_t* d, size_t len) {
     rdecode rd = {.ok = true};
     vf_seq sq = {d, len, 1, off, VD_ACCEPT, &rd};
     a_seq_cb(&sq, NULL);
+  } else if (!strcmp(tag, "tree-corpus")) {
+    vs_reset_arenas();
+    struct cbor_load_result r;
+    cbor_item_t* t = cbor_load(d, len, &r);
+    if (t) frozen_ops(t, "boundary corpus item");
   } else if (!strcmp(tag, "tree-choices")) {
     vt_choices ch;
     memset(&ch, 0, sizeof ch);
@@ -846,6 +1002,8 @@ struct vf_check vf_the_check = {
             "under re-exploration; (2) unreduced exploration: every access of library code to non-thread-private memory is a scheduling point, pairs to bound 2 (3 in the thorough tier), triples to bound 1 (2), each capped at 400 000 (4 000 000) schedules. evaluations = complete "
             "schedules executed on the real object code, transitions = scheduling points taken, states = schedules; distinct_nontrivial = scenarios. Oracles on every execution: no conflicting access pair, no "
             "store to a global/static object, no access to another thread's private memory, per-thread result digest = digest of the thread running alone. "
+            "(2b) 12 hand-over scenarios: an original, its cbor_copy, a copy of the copy / a re-load of its serialization are created before the threads start and each given to one thread, which describes, "
+            "serializes, copies and releases it (2 inputs with zero-length chunks, nested tags, empty containers; 2 and 3 threads): same explorations, same oracles. "
             "(3) Global-state sweep, no scheduling needed: every input of the pushdown DFS over Sigma (4/5 heads), every boundary-corpus item, every 8th (every) constructed tree and all builders / "
             "encoders on the structured value sets are run through the whole client pipeline in the trace build; any store of library code to memory that is neither an allocator arena nor the "
             "caller's stack is hidden mutable global state",
@@ -865,9 +1023,9 @@ struct vf_check vf_the_check = {
                     "the library uses no locks or atomics, so two accesses of different threads to overlapping bytes with at least one store are a data race by definition",
                     "explorer self-test: an unsynchronised x++ control must show a detected race and a lost update at preemption bound 1, otherwise the check reports itself broken"},
     .counters = {[VC_EVAL] = "schedules_or_operations_executed", [VC_DISTINCT] = "distinct_scenarios_or_trees", [VC_TRANS] = "scheduling_points_taken", [VC_TRACES] = "executed_on_implementation",
-                 [K_SCEN] = "scenarios", [K_POINTS] = "scheduling_points", [K_MAXPOINTS] = "sum_over_workers_of_max_points_per_schedule", [K_SHARED_ADDRS] = "shared_addresses_seen_summed_over_explorations",
+                 [K_SCEN] = "scenarios", [K_HANDOVER] = "hand_over_scenarios", [K_POINTS] = "scheduling_points", [K_MAXPOINTS] = "sum_over_workers_of_max_points_per_schedule", [K_SHARED_ADDRS] = "shared_addresses_seen_summed_over_explorations",
                  [K_SHARED_WRITTEN] = "shared_addresses_written_summed_over_explorations", [K_SELFTEST_EXEC] = "selftest_schedules", [K_WATCH_CALLS] = "store_watched_decoder_calls",
-                 [K_TREES] = "trees_frozen", [K_TREES_WITH_TAG] = "trees_containing_a_tag", [K_TREES_WITH_HISTORY] = "trees_frozen_again_after_refused_operations", [K_REFUSED_OPS] = "refused_operations_applied_before_freezing", [K_OPS] = "read_only_operations_on_frozen_trees", [K_BOUND0] = "explorations_completed_at_bound_0",
+                 [K_TREES] = "trees_frozen", [K_TREES_WITH_TAG] = "trees_containing_a_tag", [K_REFUSED_RUNS] = "read_only_operations_run_with_their_allocator_requests_refused", [K_DEEP_TREES] = "boundary_corpus_trees_frozen", [K_TREES_WITH_HISTORY] = "trees_frozen_again_after_refused_operations", [K_REFUSED_OPS] = "refused_operations_applied_before_freezing", [K_OPS] = "read_only_operations_on_frozen_trees", [K_BOUND0] = "explorations_completed_at_bound_0",
                  [K_BOUND1] = "explorations_completed_at_bound_1", [K_BOUND2] = "explorations_completed_at_bound_2", [K_BOUND3] = "explorations_completed_at_bound_3",
                  [K_REDUCED] = "schedules_in_reduced_explorations", [K_UNREDUCED] = "schedules_in_unreduced_explorations", [K_CAPPED] = "unreduced_explorations_capped", [K_SWEEP] = "inputs_and_trees_swept_for_stores_to_global_objects"},
     .init = init, .units = units, .unit = unit, .replay = replay, .states_counter = VC_EVAL + 1};
